@@ -270,6 +270,25 @@ class CondGen(object):
                 self.helpers.add('zqid')
                 inner = '\\zqid{%s}'
             return '{\\def\\ifzqloc{Ql}' + (inner % c) + '}'
+        if r.random() < 0.08:
+            # a macro with parameters: an \ifx on a parameter and an ordinary token, then a conditional whose number is a parameter
+            self.features.add('in-macro-body-with-parameters')
+            self.nmac += 1
+            nm = 'zqm' + alpha(self.nmac)
+            t1 = '\\ifx#1%s %s\\else %s\\fi ' % (r.choice(['\\zqundefb ', '\\relax ', 'x', '\\zqundefa ']), self.branch(depth), self.branch(depth))
+            form = r.choice(['ifcase', 'ifodd', 'ifnum<', 'ifnum>'])
+            if form == 'ifcase':
+                t2 = '\\ifcase#2 ' + self.branch(depth) + '\\or ' + self.branch(depth) + '\\or ' + self.branch(depth) + '\\else ' + self.branch(depth) + '\\fi '
+            elif form == 'ifodd':
+                t2 = '\\ifodd#2 ' + self.branch(depth) + '\\else ' + self.branch(depth) + '\\fi '
+            elif form == 'ifnum<':
+                t2 = '\\ifnum 3<#2\\relax ' + self.branch(depth) + '\\else ' + self.branch(depth) + '\\fi '
+            else:
+                t2 = '\\ifnum#2>1 ' + self.branch(depth) + '\\else ' + self.branch(depth) + '\\fi '
+            if r.random() < 0.3:
+                t1, t2 = t2, t1
+            calls = ''.join('\\%s%s{%d}' % (nm, r.choice(['{x}', '\\zqundefa ', '\\relax ', '{\\zqundefb}']), r.choice([0, 1, 2, 3, 5])) for _ in range(r.randint(1, 2)))
+            return '\\def\\%s#1#2{%s%s}%s' % (nm, t1, t2, calls)
         c = self.conditional(depth)
         k = r.random()
         if k < 0.4:
